@@ -181,7 +181,7 @@ func init() {
 	reg("C06",
 		"Structural necessary conditions of keyspace discipline, decided for every site of the current source: (A4-empty) after every site that can shrink a list/hash/set every path to the end of the critical section tests the aggregate's count against zero and removes the key on the empty side; (A4-nonempty-create) an element is inserted after every creation of an empty aggregate; (R-payload-agree) every type assertion on a key's payload is dominated by a test of the key-type flag and asserts the Go type producers store for that flag; (R-ctor-agree) list constructors (COPY, load) set the full field set; (R-typed-nil) typed-accessor results are nil-tested before dereference (WRONGTYPE before any use); (A7, redisCore.go) options of the keyspace commands are producible by the grammar; (A6) the keyspace commands (EXISTS, TYPE, RENAME(NX), COPY, KEYS, RANDOMKEY, DBSIZE ...) see the keyspace only through an expiry filter, so an expired key is absent for them as the property demands. (A4-inert) in every handler and store method no failure point is reachable after a change point; (R-payload-own, R-store-nonempty) payload objects are never shared between keys and computed aggregates are installed only when non-empty.",
 		"glob matching, SORT ordering, DBSIZE/KEYS values, deep-copy equality of COPY/RENAME as values",
-		nil, ruleA4Empty, ruleNonEmptyCreate, rulePayloadAgree, ruleDictValueAgree, ruleBytesOpaque, ruleStoreReplaces, ruleStringPayloadNonNil, ruleCtorAgree, ruleTypedNil, ruleA6, ruleA4Inert, rulePayloadOwn, ruleStoreNonEmpty, ruleSameKeyOrder, ruleDictReadersPure, a7Files(20, "redisCore.go"))
+		nil, ruleA4Empty, ruleNonEmptyCreate, rulePayloadAgree, ruleDictValueAgree, ruleBytesOpaque, ruleStoreReplaces, ruleStringPayloadNonNil, ruleSortKeysDefined, ruleCtorAgree, ruleTypedNil, ruleA6, ruleA4Inert, rulePayloadOwn, ruleStoreNonEmpty, ruleSameKeyOrder, ruleDictReadersPure, a7Files(20, "redisCore.go"))
 	reg("C07",
 		"A6 (who-may-read the keyspace raw): every read of a database's keyspace dictionary goes through an expiry filter (tests isExpired, yields (nil,false) on the expired edge), or is an iteration that tests isExpired per element, or is the snapshot writer (identified as the function that drives the gob encoder). This is exactly the universally quantified 'every command treats an expired key as missing' clause.",
 		"deadline arithmetic, TTL/PTTL/EXPIRETIME values, NX/XX/GT/LT comparisons, which commands keep/reset/set the deadline, behaviour at the deadline instant (time is a runtime quantity)",
